@@ -14,6 +14,9 @@ fn name(seq: u64) -> String {
 thread_local! {
     /// (entry, value): the payload of that entry is chosen so that its checksum is that value
     static FORGE: std::cell::Cell<Option<(usize, u32)>> = std::cell::Cell::new(None);
+    /// (gid, offset, bytes): the payload of entry `gid` carries these bytes at `offset` (a value is arbitrary binary data: it may
+    /// well look like an encoded WAL entry)
+    static EMBED: std::cell::RefCell<Option<(usize, usize, Vec<u8>)>> = std::cell::RefCell::new(None);
 }
 
 fn entry(gid: usize, size: usize, stamp: u64) -> WalEntry {
@@ -24,8 +27,40 @@ fn entry(gid: usize, size: usize, stamp: u64) -> WalEntry {
             forge_crc(&mut data, size - 4, target, &|b| crc32fast::hash(b));
         }
     }
+    EMBED.with(|e| {
+        if let Some((g, off, bytes)) = &*e.borrow() {
+            if *g == gid && off + bytes.len() <= data.len() {
+                data[*off..off + bytes.len()].copy_from_slice(bytes);
+            }
+        }
+    });
     let checksum = crc32fast::hash(&data);
     WalEntry { data, timestamp: stamp, checksum }
+}
+
+/// A payload that carries a well-formed encoded entry, and one flipped bit in the length prefix of its frame (the prefix is
+/// not covered by the checksum) that moves the end of the frame exactly onto the embedded bytes: a reader that steps over a
+/// frame it cannot verify must not come back with an entry nobody appended.
+fn ghost_cases(out: &mut Out) {
+    for (size, bit) in [(192usize, 7u32), (192, 6), (80, 6), (80, 4), (1104, 10), (300, 8)] {
+        let shorter = size ^ (1usize << bit);
+        if shorter >= size {
+            continue;
+        }
+        let ghost = entry(99, 5, 77).encode();
+        if shorter + ghost.len() > size {
+            continue;
+        }
+        for second in [0usize, 1] {
+            // the carrier is the first or the second entry of the file; an intact entry follows it
+            let sizes: Vec<Vec<usize>> = if second == 0 { vec![vec![size, 3]] } else { vec![vec![4, size, 3]] };
+            let gid = 1 + second;
+            EMBED.with(|e| *e.borrow_mut() = Some((gid, shorter, ghost.clone())));
+            let at = 16 + if second == 0 { 0 } else { 16 + 4 } + (bit as usize / 8);
+            case(out, &sizes, 1, "ghost", |d| { d[at] ^= 1u8 << (bit % 8); (-1, at as i64, at as i64, 0) });
+            EMBED.with(|e| *e.borrow_mut() = None);
+        }
+    }
 }
 
 struct Image {
@@ -106,6 +141,70 @@ impl WalStore for UnreadableStore {
     fn exists(&self, name: &str) -> Result<bool, redis_sim::streaming::wal_store::WalError> {
         self.inner.exists(name)
     }
+}
+
+/// A directory in which no new file can be created for a while (disk full, quota, permissions): everything else works.
+#[derive(Clone)]
+struct CreateDenyStore {
+    inner: InMemoryWalStore,
+    deny: std::sync::Arc<std::sync::atomic::AtomicBool>,
+}
+impl WalStore for CreateDenyStore {
+    type Writer = <InMemoryWalStore as WalStore>::Writer;
+    type Reader = <InMemoryWalStore as WalStore>::Reader;
+    fn create(&self, name: &str) -> Result<Self::Writer, redis_sim::streaming::wal_store::WalError> {
+        if self.deny.load(std::sync::atomic::Ordering::SeqCst) {
+            return Err(std::io::Error::new(std::io::ErrorKind::Other, "injected: no space left on device").into());
+        }
+        self.inner.create(name)
+    }
+    fn open_read(&self, name: &str) -> Result<Self::Reader, redis_sim::streaming::wal_store::WalError> { self.inner.open_read(name) }
+    fn list(&self) -> Result<Vec<String>, redis_sim::streaming::wal_store::WalError> { self.inner.list() }
+    fn delete(&self, name: &str) -> Result<(), redis_sim::streaming::wal_store::WalError> { self.inner.delete(name) }
+    fn exists(&self, name: &str) -> Result<bool, redis_sim::streaming::wal_store::WalError> { self.inner.exists(name) }
+}
+
+/// Rotation that cannot create the next file, then truncation: `before` entries go into files of at most `maxsize` bytes; from
+/// entry `deny_from` on no file can be created (appends may fail or not - whatever is acknowledged counts); `truncate_before(T)`;
+/// creation works again from `allow_at` further entries on; `later` more entries stamped above everything.  Every acknowledged
+/// entry stamped later than T must come back; nothing that was never appended may.
+fn rotfail_case(out: &mut Out, before: usize, deny_from: usize, t: u64, later: usize, allow_at: usize, maxsize: usize) {
+    use std::sync::atomic::Ordering;
+    let inner = InMemoryWalStore::new();
+    let deny = std::sync::Arc::new(std::sync::atomic::AtomicBool::new(false));
+    let st = CreateDenyStore { inner: inner.clone(), deny: deny.clone() };
+    let d2 = deny.clone();
+    let r = catch(move || {
+        let mut rot = WalRotator::new(st, maxsize).unwrap();
+        let (mut acked, mut maybe) = (Vec::new(), Vec::new());
+        for i in 0..before {
+            if i == deny_from { d2.store(true, Ordering::SeqCst); }
+            let stamp = i as u64 + 1;
+            match rot.append(&entry(100 + i, 20, stamp)) { Ok(_) => acked.push(stamp), Err(_) => maybe.push(stamp) }
+        }
+        let _ = rot.sync();
+        let deleted = rot.truncate_before(t).map(|d| d as i64).unwrap_or(-1);
+        for j in 0..later {
+            if j == allow_at { d2.store(false, Ordering::SeqCst); }
+            let stamp = 1000 + j as u64;
+            match rot.append(&entry(200 + j, 20, stamp)) { Ok(_) => acked.push(stamp), Err(_) => maybe.push(stamp) }
+        }
+        let synced = rot.sync().is_ok();
+        (acked, maybe, deleted, synced)
+    });
+    let mut rec = json!({"t": "rotfail", "run": out.n + 1, "shape": [before, deny_from, later, allow_at, maxsize], "T": t, "acked": [], "maybe": [], "after": []});
+    match r {
+        Ok((acked, maybe, deleted, synced)) => {
+            rec["acked"] = json!(acked); rec["maybe"] = json!(maybe); rec["deleted"] = json!(deleted); rec["synced"] = json!(synced);
+            match catch(|| WalRotator::new(inner.clone(), 1 << 30).unwrap().recover_all_entries().map(|es| es.iter().map(|e| e.timestamp).collect::<Vec<u64>>())) {
+                Ok(Ok(a)) => rec["after"] = json!(a),
+                Ok(Err(e)) => rec["panic"] = json!(format!("recovery failed: {e}")),
+                Err(p) => rec["panic"] = json!(p),
+            }
+        }
+        Err(p) => rec["panic"] = json!(p),
+    }
+    out.emit(&rec);
 }
 
 fn recover(img: &Image) -> Value {
@@ -360,6 +459,7 @@ pub fn main(a: &Args) -> i32 {
     for big in if thorough { vec![(1usize << 20) + 1, 17 << 20, (64 << 20) + 5, 130 << 20] } else { vec![(1usize << 20) + 1, (64 << 20) + 5] } {
         big_cases(&mut out, big);
     }
+    ghost_cases(&mut out);
     // truncation: every stamp layout over {1,2,3} for files of 1-2 entries, 2-3 files, every T
     let vals = [1u64, 2, 3];
     let mut file_opts: Vec<Vec<u64>> = Vec::new();
@@ -386,6 +486,20 @@ pub fn main(a: &Args) -> i32 {
                     for f3 in &file_opts {
                         if thorough || f3.len() == 1 {
                             trunc_case(&mut out, &[f1.clone(), f2.clone(), f3.clone()], t, true);
+                        }
+                    }
+                }
+            }
+        }
+    }
+    // rotation that cannot create the next file, then truncation, then more appends
+    for before in [3usize, 4, 6] {
+        for deny_from in 0..=before {
+            for t in [0u64, 2, before as u64, 999, 2000] {
+                for (later, allow_at) in [(0usize, 0usize), (3, 0), (3, 2), (3, 9)] {
+                    for maxsize in [90usize, 130] {
+                        if thorough || (before + deny_from + later + allow_at + maxsize / 10 + t as usize) % 3 == 0 {
+                            rotfail_case(&mut out, before, deny_from, t, later, allow_at, maxsize);
                         }
                     }
                 }
